@@ -397,6 +397,15 @@ func damageStream(kind int, b []byte) []byte {
 		return append([]byte("not json\n"), b...)
 	case 3: // cut in the middle; an opened document follows so that a cut on a document boundary is an error too
 		return append(append([]byte{}, b[:len(b)/2]...), []byte("{")...)
+	// 4-7 only reshape the stream: it still is the same sequence of JSON documents
+	case 4: // no newline after the last document
+		return bytes.TrimRight(b, "\n")
+	case 5: // white space in front of, between and after the documents
+		return append([]byte(" \n\t\r\n"), bytes.ReplaceAll(b, []byte("\n"), []byte("\n \t\n\n"))...)
+	case 6: // all documents on one line, nothing between them
+		return bytes.ReplaceAll(b, []byte("\n"), nil)
+	case 7: // CRLF line ends
+		return bytes.ReplaceAll(b, []byte("\n"), []byte("\r\n"))
 	}
 	return b
 }
@@ -464,7 +473,7 @@ func runPins(c pinsCase) string {
 	}()
 
 	// (c') a cut Marshal stream: Unmarshal must still have emptied the target first
-	if c.damage != 0 {
+	if c.damage >= 1 && c.damage <= 3 {
 		func() {
 			var buf bytes.Buffer
 			tgt, err := newMemState(c.prior, dssync.MutexWrap(ds.NewMapDatastore()), "/tgt")
@@ -765,6 +774,8 @@ func genPinsCase(r *common.Rng, k, total int, tier string) pinsCase {
 	}
 	if r.Chance(1, 10) {
 		c.damage = r.Range(1, 3)
+	} else if r.Chance(1, 4) {
+		c.damage = r.Range(4, 7)
 	}
 	c.expc = k%4 == 1
 	startEvery := 97
